@@ -6,7 +6,7 @@
 use crate::common::*;
 use crate::gen::*;
 use crate::rng::{derive, Rng};
-use crate::simenv::{self, EnvScript, Envelope, Hooks, SimCore};
+use crate::simenv::{self, EnvScript, Envelope, Hooks};
 use crate::spec::*;
 use pushr::push::buffer::{BufferType, PushBuffer};
 use pushr::push::instructions::InstructionSet;
@@ -523,8 +523,7 @@ fn heads(v: &[MsgSpec]) -> Vec<i32> {
 }
 
 impl Hooks for IoHooks {
-    fn pre(&mut self, core: &mut SimCore, idx: usize, st: &mut PushState) -> bool {
-        let ev = core.events - 1;
+    fn pre(&mut self, ev: u64, name: &str, st: &mut PushState) -> bool {
         // the hosts act first (the scheduler gave them this boundary)
         while self.next < self.hosts.len() && self.hosts[self.next].0 <= ev {
             let op = self.hosts[self.next].1.clone();
@@ -536,7 +535,7 @@ impl Hooks for IoHooks {
                     if force {
                         if self.input.len() == self.in_cap {
                             self.input.pop_front();
-                            core.fault("queue_overwrite");
+                            simenv::fault("queue_overwrite");
                         }
                         self.input.push_back(msg.clone());
                         st.input_stack.push_force(msg.to_msg());
@@ -544,12 +543,12 @@ impl Hooks for IoHooks {
                         if self.input.len() < self.in_cap {
                             self.input.push_back(msg.clone());
                         } else {
-                            core.fault("queue_overrun");
+                            simenv::fault("queue_overrun");
                         }
                         st.input_stack.push(msg.to_msg());
                     }
                     if msg.body.is_empty() {
-                        core.fault("empty_body_message");
+                        simenv::fault("empty_body_message");
                     }
                 }
                 HostOp::Consume => {
@@ -559,7 +558,7 @@ impl Hooks for IoHooks {
                     if got.is_some() {
                         self.consumed += 1;
                     } else {
-                        core.fault("consumer_found_empty");
+                        simenv::fault("consumer_found_empty");
                     }
                     if got != want {
                         self.v("consume", "host consumer pop of OUTPUT", format!("consumer received {:?}, the model queue delivers {:?}", got.as_ref().map(|m| m.header.clone()), want.as_ref().map(|m| m.header.clone())), ev);
@@ -569,7 +568,6 @@ impl Hooks for IoHooks {
             self.cross_check(st, ev, "host action");
         }
         self.sched_hash = self.sched_hash.wrapping_mul(31).wrapping_add(7);
-        let name = core.names[idx].as_str();
         if name.starts_with("INPUT.") || name.starts_with("OUTPUT.") {
             self.pre_int = st.int_stack.get(0).cloned();
             self.pre_bv = st.bool_vector_stack.get(0).map(|v| v.values.clone());
@@ -579,9 +577,8 @@ impl Hooks for IoHooks {
         true
     }
 
-    fn post(&mut self, core: &mut SimCore, idx: usize, st: &mut PushState) {
-        let ev = core.events - 1;
-        let name = core.names[idx].clone();
+    fn post(&mut self, ev: u64, name: &str, st: &mut PushState) {
+        let name = name.to_string();
         let (db, di, dbv, div) = self.pre_depths;
         match name.as_str() {
             "INPUT.AVAILABLE" => {
@@ -650,7 +647,7 @@ impl Hooks for IoHooks {
                         self.writes += 1;
                     } else {
                         self.write_drops += 1;
-                        core.fault("consumer_stall_write_dropped");
+                        simenv::fault("consumer_stall_write_dropped");
                     }
                 }
             }
